@@ -457,6 +457,57 @@ class WorkflowRecovery:
             if child.parent_stage_id == stage.id and child.synthetic_stage_owner == SyntheticStageOwner.STAGE_BEFORE
         )
 
+    def _parent_allows_start(self, stage: StageExecution, workflow: Workflow) -> bool:
+        """Check that a synthetic child's parent has reached the point where
+        the healthy run starts that child.
+
+        - STAGE_BEFORE children are started by StartStageHandler in the same
+          transaction that makes the parent RUNNING.
+        - STAGE_AFTER children are started by CompleteStageHandler once the
+          parent's tasks and before-stages have all finished successfully
+          (or, for a task-less parent, by StartStageHandler right away), or
+          together with the on-failure stages (``_on_failure_planned``).
+
+        A pre-declared child of a parent that is still NOT_STARTED (waiting
+        for its own upstreams), or an after-stage of a parent whose tasks are
+        still in flight, has unmet dependencies even though it has no
+        requisite_stage_ref_ids; re-queuing it would run it out of order.
+
+        Args:
+            stage: A stage with parent_stage_id set
+            workflow: The full workflow containing all stages
+
+        Returns:
+            True if the parent's state permits starting the child
+        """
+        from stabilize.models.stage import SyntheticStageOwner
+
+        parent = next((s for s in workflow.stages if s.id == stage.parent_stage_id), None)
+        if parent is None:
+            # Orphan synthetic stage: nothing to order against.
+            return True
+
+        if parent.status != WorkflowStatus.RUNNING:
+            return False
+
+        if stage.synthetic_stage_owner != SyntheticStageOwner.STAGE_AFTER:
+            return True
+
+        if parent.context.get("_on_failure_planned", False):
+            return True
+
+        finished = {
+            WorkflowStatus.SUCCEEDED,
+            WorkflowStatus.SKIPPED,
+            WorkflowStatus.FAILED_CONTINUE,
+        }
+        core_statuses = [t.status for t in parent.tasks] + [
+            s.status
+            for s in workflow.stages
+            if s.parent_stage_id == parent.id and s.synthetic_stage_owner == SyntheticStageOwner.STAGE_BEFORE
+        ]
+        return all(status in finished for status in core_statuses)
+
     def _can_start(self, stage: StageExecution, workflow: Workflow) -> bool:
         """Check if a stage's dependencies are met and it can start.
 
@@ -474,6 +525,12 @@ class WorkflowRecovery:
         """
         from stabilize.models.stage import JoinType
         from stabilize.models.status import CONTINUABLE_STATUSES
+
+        # A synthetic child is driven by its parent, not only by its own
+        # requisites: it may start only at the point where the healthy run
+        # pushes its StartStage.
+        if stage.parent_stage_id is not None and not self._parent_allows_start(stage, workflow):
+            return False
 
         # No dependencies - can always start
         if not stage.requisite_stage_ref_ids:
